@@ -695,6 +695,21 @@ func apiErrorDiscipline(c *Ctx, rule string, fileFilter func(string) bool) {
 								safe = true
 							}
 						}
+						// re-assignment of the result from a non-nil literal ends the obligation on that path
+						avoidFresh := func(x ast.Node) bool {
+							as2, ok := x.(*ast.AssignStmt)
+							if !ok || as2 == as {
+								return false
+							}
+							for i, l := range as2.Lhs {
+								if objOf(info, l) == resObj && i < len(as2.Rhs) {
+									if u, ok := as2.Rhs[i].(*ast.UnaryExpr); ok && u.Op == token.AND {
+										return true
+									}
+								}
+							}
+							return false
+						}
 						if !safe {
 							reach, _ := fl.Reach(callSite.After(), func(s Site) bool { return s == target }, false, PathQ{
 								Cut: func(atoms []Atom) bool {
@@ -705,23 +720,58 @@ func apiErrorDiscipline(c *Ctx, rule string, fileFilter func(string) bool) {
 									}
 									return false
 								},
-								Avoid: func(x ast.Node) bool {
-									// re-assignment of the result from a non-nil literal or of err from another call
+								Avoid: avoidFresh,
+							})
+							safe = !reach
+							// the same err variable may be re-assigned by a later call: from
+							// there on `err == nil` says nothing about THIS call's result, only
+							// `result != nil` does
+							if safe && errObj != nil {
+								// executing the call again binds both variables afresh
+								avoidRebind := func(x ast.Node) bool { return x == ast.Node(as) || avoidFresh(x) }
+								for _, rm := range fl.Find(func(x ast.Node) bool {
 									as2, ok := x.(*ast.AssignStmt)
 									if !ok || as2 == as {
 										return false
 									}
-									for i, l := range as2.Lhs {
-										if objOf(info, l) == resObj && i < len(as2.Rhs) {
-											if u, ok := as2.Rhs[i].(*ast.UnaryExpr); ok && u.Op == token.AND {
-												return true
-											}
+									for _, l := range as2.Lhs {
+										if objOf(info, l) == errObj {
+											return true
 										}
 									}
 									return false
-								},
-							})
-							safe = !reach
+								}) {
+									re := rm.Site
+									toRe, _ := fl.Reach(callSite.After(), func(s Site) bool { return s == re }, false, PathQ{
+										Cut: func(atoms []Atom) bool {
+											for _, a := range atoms {
+												if c15Safe(info, a, errObj, resObj) {
+													return true
+												}
+											}
+											return false
+										},
+										Avoid: avoidRebind,
+									})
+									if !toRe {
+										continue
+									}
+									fromRe, _ := fl.Reach(re.After(), func(s Site) bool { return s == target }, false, PathQ{
+										Cut: func(atoms []Atom) bool {
+											for _, a := range atoms {
+												if c15Safe(info, a, nil, resObj) {
+													return true
+												}
+											}
+											return false
+										},
+										Avoid: avoidRebind,
+									})
+									if fromRe {
+										safe = false
+									}
+								}
+							}
 						}
 						if !safe {
 							bad = p.Pos(sm.Inner.Pos())
